@@ -344,6 +344,7 @@ func reportProblem(c *world.Case, v *ref.Verdict) string {
 }
 
 func c04(x *mon.Ctx) {
+	enableTwins(x)
 	if !x.Quick() {
 		defer func() {
 			x.Fuzz("FuzzSignedCollateral", 200000) // mutated member texts, re-signed by the genuine signer: library accepts => reference accepts
